@@ -49,6 +49,9 @@ def forced_cases(tier):
               # anisotropic dilation (the height and the width dilation must not be confused), with bottom padding, striped
               ["conv3x3d2x1"], ["conv3x3d1x2"], ["dw3x3d2x1"], ["conv3x3", "conv3x3d2x1"], ["conv3x3d1x2", "conv3x3"], ["conv3x3d2x1", "conv3x3d1x2"],
               ["conv1x1", "dw3x3d2x1", "conv1x1"],
+              # nearest-upscaling operators with a kernel (bilinear resize; align_corners variants) striped inside a cascade: odd bottom skirt
+              ["conv3x3", "resize_bl2", "conv3x3"], ["resize_bl2", "conv3x3"], ["conv1x1", "resize_bl2"], ["conv3x3", "resize_bl2_ac", "conv3x3"],
+              ["conv3x3", "resize_nn2_ac", "conv3x3"], ["resize_bl2", "dw3x3"],
               # two different tables inside one cascade
               ["conv3x3", "leaky_relu", "conv3x3"], ["leaky_relu", "conv3x3", "logistic"], ["logistic", "conv1x1", "tanh"]]
     hists = []
